@@ -9,6 +9,7 @@ import G3D.Model.Heap
 import G3D.Model.Judge
 import G3D.Model.K5
 import G3D.Model.ExactHyp
+import G3D.Model.SameSet
 open G3D
 
 /-! Line-protocol driver of the executable model: one case per input line, one result line per case.
@@ -265,6 +266,9 @@ def handle (line : String) : String :=
       | .halfline l, .halfline m => showBool (l.p == m.p && V3.parallel l.v m.v && decide (0 < V3.dot l.v m.v))
       | _, _ => "false"
     | some ((.ok (.vec a), .ok (.vec b)), _) => showBool (a == b)
+    | some ((.ok (.obj (.polygon P)), .ok (.obj (.polygon Q))), _) => showBool (P.same Q)
+    | some ((.ok (.obj (.polyhedron A)), .ok (.obj (.polyhedron B))), _) => showBool (A.sameB B)
+    | some ((.ok (.obj _), .ok (.obj _)), _) => "false"
     | some _ => "ctor-error"
     | none => "bad-op"
   | "mem" :: rest =>
